@@ -514,7 +514,9 @@ Open(withIdx) ==
               o == RecoverOut(recs, tail, man, ixf, TRUE)
               prev == lastRec
               \* the classification of the image: set by the fault action, kept across a failed open, gone after a successful one
-              pk == IF prev.kind \in {"crash", "damage"} /\ ("err" \notin DOMAIN prev \/ prev.err # "none") THEN prev.kind ELSE "open"
+              \* a journal that (still) contains a damaged record - e.g. one a good index has been hiding - is a Damage image
+              pk == IF \E i \in 1..Len(recs) : ~recs[i].ok THEN "damage"
+                    ELSE IF prev.kind \in {"crash", "damage"} /\ ("err" \notin DOMAIN prev \/ prev.err # "none") THEN prev.kind ELSE "open"
               al == IF pk = "crash" THEN prev.allowed ELSE {[root |-> base.root, reach |-> base.reach]}
               hit == {a \in al : a.root = o.root}
           IN /\ lastRec' = [kind |-> pk,
